@@ -101,13 +101,15 @@ def cli_replay_precedence(which):
     `no<which>ignore` must bring it back"""
     def rep():
         exe = common.native_binary()
-        if which == 'git':
-            return False, 'gitignore precedence is not replayed (libgit2)'
         d = tempfile.mkdtemp(prefix='verif-c20-', dir=common.SCRATCH_ROOT)
         try:
             os.makedirs(os.path.join(d, 'r'))
             open(os.path.join(d, 'r', 'keep.txt'), 'w').write('x'); open(os.path.join(d, 'r', 'drop.log'), 'w').write('x')
-            if which == 'hg':
+            if which == 'git':
+                if subprocess.run(['git', 'init', '-q', os.path.join(d, 'r')], stdout=subprocess.PIPE, stderr=subprocess.PIPE).returncode != 0:
+                    return False, 'git is not available: gitignore precedence not replayed'
+                open(os.path.join(d, 'r', '.gitignore'), 'w').write('*.log\n')
+            elif which == 'hg':
                 os.makedirs(os.path.join(d, 'r', '.hg'))
                 open(os.path.join(d, 'r', '.hgignore'), 'w').write('syntax: glob\n*.log\n')
             else:
@@ -115,10 +117,10 @@ def cli_replay_precedence(which):
             cfgdir = os.path.join(d, 'home', '.config', 'fselect'); os.makedirs(cfgdir)
             results = {}
             for cfgline, label in (('%signore = true\n' % which, 'config-on'), ('', 'config-off')):
-                open(os.path.join(d, 'r', 'config.toml'), 'w').write(cfgline + 'check_for_updates = false\n')
+                open(os.path.join(cfgdir, 'config.toml'), 'w').write(cfgline + 'check_for_updates = false\n')
                 for opt in ('', '%signore' % which, 'no%signore' % which):
-                    env = {'PATH': os.environ['PATH'], 'HOME': os.path.join(d, 'home'), 'TZ': 'UTC'}
-                    p = subprocess.run([exe, 'name', 'from', '.'] + ([opt] if opt else []), cwd=os.path.join(d, 'r'), env=env, stdout=subprocess.PIPE, stderr=subprocess.PIPE, timeout=20)
+                    env = {'PATH': os.environ['PATH'], 'HOME': os.path.join(d, 'home'), 'XDG_CONFIG_HOME': os.path.join(d, 'home', '.config'), 'TZ': 'UTC'}
+                    p = subprocess.run([exe, 'name', 'from', os.path.join(d, 'r')] + ([opt] if opt else []), cwd=os.path.join(d, 'r'), env=env, stdout=subprocess.PIPE, stderr=subprocess.PIPE, timeout=20)
                     names = set(p.stdout.decode().split('\n')[:-1])
                     results[(label, opt)] = 'drop.log' not in names
             exp = {('config-on', ''): True, ('config-on', '%signore' % which): True, ('config-on', 'no%signore' % which): False,
@@ -410,6 +412,9 @@ def fam_upstream(sess):
         def is_file(ctx, args, callee):
             t = realpath(ctx.deref(args[0]).text)
             holder = ctx.ghost['holder']
+            stray = ctx.ghost.get('stray')
+            if stray is not None and t == stray + '/.hgignore':
+                return BoolVal(True)        # an .hgignore below the repository top, in a directory without .hg
             if holder is None:
                 return BoolVal(False)
             return BoolVal(t in (holder + '/.dockerignore', holder + '/.hgignore', holder + '/.hg'))
@@ -424,10 +429,14 @@ def fam_upstream(sess):
         f = prog.find_free(fname)
         box = {'paths': 0}
 
-        def run(ctx):
+        def run(ctx, which=which):
             si = ctx.concretize(ctx.fresh_bv('spelling', 8), range(len(spellings)))
             hi = ctx.concretize(ctx.fresh_bv('holder', 8), range(len(holders)))
             ctx.ghost['holder'] = holders[hi]
+            # hg: the file that counts is the one next to .hg (the repository top); a stray .hgignore in the root directory itself, which
+            # is not a repository top, must not be taken instead
+            if which == 'hg' and holders[hi] not in (None, '/x/real/repo') and ctx.decide(ctx.fresh_bool('stray_hgignore_in_the_root')):
+                ctx.ghost['stray'] = '/x/real/repo'
             ctx.call_fn(f, [Ref(Cell(Seq([]))), Ref(Cell(P(spellings[si])))])
             return spellings[si], holders[hi]
 
@@ -445,16 +454,20 @@ def fam_upstream(sess):
             if got == want or box.get('viol'):
                 return
             box['viol'] = True
-            sess.violated(nm, 'upstream/%s/%s' % (which, 'noncanonical-root' if realpath(sp) != sp else 'canonical-root'),
-                          'root spelled %r, ignore file in %r: patterns anchored at %r (expected %r)' % (sp, holder, got, want), {'root': sp, 'holder': holder},
-                          cli_replay_upstream(which), fam)
+            stray = ctx.ghost.get('stray')
+            sess.violated(nm, 'upstream/%s/%s' % (which, 'stray-ignore-file' if stray else 'noncanonical-root' if realpath(sp) != sp else 'canonical-root'),
+                          'root spelled %r, ignore file in %r%s: patterns anchored at %r (expected %r)' % (sp, holder, (', a stray .hgignore without .hg in %r' % stray) if stray else '', got, want),
+                          {'root': sp, 'holder': holder}, cli_replay_upstream(which, bool(stray)), fam)
         ex.explore(run, on_path)
         if not box.get('viol') and not box.get('bad'):
             sess.discharged('%s %s: the nearest ancestor of the real root location, anchored at its canonical path' % (fam, which), family=fam, queries=box['paths'])
 
 
-def cli_replay_upstream(which):
+def cli_replay_upstream(which, stray=False):
     def rep():
+        if stray:
+            return cli_replay_stray()
+
         exe = common.native_binary()
         d = tempfile.mkdtemp(prefix='verif-c20u-', dir=common.SCRATCH_ROOT)
         try:
@@ -475,6 +488,22 @@ def cli_replay_upstream(which):
         finally:
             shutil.rmtree(d, ignore_errors=True)
     return rep
+
+
+def cli_replay_stray():
+    """repository top <d>/top (.hg + .hgignore ignoring *.log); root <d>/top/work holds a stray .hgignore (no .hg) ignoring *.txt"""
+    exe = common.native_binary()
+    d = tempfile.mkdtemp(prefix='verif-c20s-', dir=common.SCRATCH_ROOT)
+    try:
+        top = os.path.join(d, 'top'); work = os.path.join(top, 'work'); os.makedirs(work); os.makedirs(os.path.join(top, '.hg'))
+        open(os.path.join(top, '.hgignore'), 'w').write('syntax: glob\n*.log\n')
+        open(os.path.join(work, '.hgignore'), 'w').write('syntax: glob\n*.txt\n')
+        open(os.path.join(work, 'keep.txt'), 'w').write('x'); open(os.path.join(work, 'drop.log'), 'w').write('x')
+        p = subprocess.run([exe, 'name', 'from', work, 'hgignore'], env={'PATH': os.environ['PATH'], 'HOME': d, 'TZ': 'UTC'}, stdout=subprocess.PIPE, stderr=subprocess.PIPE, timeout=20)
+        rows = sorted(x for x in p.stdout.decode().split('\n')[:-1] if not x.startswith('.'))
+        return rows != ['keep.txt'], 'name from top/work hgignore (top/.hgignore ignores *.log; a stray work/.hgignore without .hg ignores *.txt) -> %r, hg ignores drop.log only' % rows
+    finally:
+        shutil.rmtree(d, ignore_errors=True)
 
 
 def fam_gitarg(sess):
